@@ -815,6 +815,11 @@ func (t *Tree) Compile(file string, args []string, out io.Writer) (err error) {
 					} else {
 						class := &node{Type: TypeUnorderedAlternate}
 						for d := rune(0); d <= unicode.MaxRune; d++ {
+							if d >= 0xD800 && d <= 0xDFFF {
+								/* a surrogate half is never a character of the buffer, and
+								   as text all of them would read as U+FFFD */
+								continue
+							}
 							if properties[i].s.Has(d) {
 								class.PushBack(&node{Type: TypeCharacter, string: string(d)})
 							}
